@@ -385,6 +385,11 @@ func (w *World) genTx(t *rapid.T, view *utxoView, next uint64, prefer func(*Coin
 		}
 	}
 	nIn := rapid.IntRange(1, 3).Draw(t, "nIn")
+	// now and then a sweep: several inputs (often of different wallets) into a single output
+	sweep := rapid.IntRange(0, 7).Draw(t, "sweep") == 0
+	if sweep {
+		nIn = 3
+	}
 	tx := wire.NewMsgTx()
 	used := map[wire.OutPoint]bool{}
 	var total int64
@@ -415,6 +420,10 @@ func (w *World) genTx(t *rapid.T, view *utxoView, next uint64, prefer func(*Coin
 	}
 	remaining := total - fee
 	nOut := rapid.IntRange(1, 4).Draw(t, "nOut")
+	if sweep {
+		nOut = 1
+		w.flag("sweep-transaction")
+	}
 	for i := 0; i < nOut && remaining > 0; i++ {
 		script, min, _ := w.pickDest(t, next, hasBindingIn, remaining)
 		var v int64
